@@ -1,6 +1,6 @@
 (* C15 — Modules load once, export read-only names, and cycles are reported.
    Only statements, closed by [exact], and their assumptions.  The model (coq/model/Modules.v) is the REPAIRED
-   import algorithm (fixes/C15-1.patch, fixes/C15-2.patch); the two refuting witnesses of the pinned code are in
+   import algorithm (fixes/C15-1.patch, fixes/C15-2.patch, and the method-home repair C15-3); the two refuting witnesses of the pinned code are in
    corpus/C15/cases.json and findings/C15.md.
 
    [ord_exports] / [ord_nodes] are the iteration orders of the two Go maps that the algorithm ranges over (the export
@@ -165,7 +165,7 @@ Print Assumptions C15_cycle_reported.
         (whatever the importer's scope contains, and also after the home module's program has ended) *)
 Theorem C15_imported_method_sees_home_module :
   (forall (callee : vm -> list stmt -> res * vm) st f y h body r st',
-     scope_lookup (sc_syms (cur_scope st)) f = Some y -> y_ext y = Some h -> y_val y = VFun body ->
+     scope_lookup (sc_syms (cur_scope st)) f = Some y -> y_ext y = Some h -> y_val y = VFun h body ->
      assoc_find (m_exports (get_mod st (cur_id st))) f = None ->
      exec_stmt_with callee st (SCall f) = (r, st') ->
      exists sa sb r0, v_cs sa = Some h /\ v_mods sa = v_mods st /\ v_trace sa = v_trace st /\
@@ -176,6 +176,43 @@ Theorem C15_imported_method_sees_home_module :
      find_with_module st x = Some (v, h)).
 Proof. split; [exact imported_call_frame | exact home_lookup]. Qed.
 Print Assumptions C15_imported_method_sees_home_module.
+
+(* ---- a method runs in the module it was defined in, whatever the name it is called by: a method value (of home
+        module h) found under a name x of the current scope — imported, or a plain local variable such as the x of
+        令x = 求 (y_ext y = None) — is executed on a frame of h *)
+Theorem C15_aliased_method_runs_in_home_module :
+  forall (callee : vm -> list stmt -> res * vm) st x y h body r st',
+    scope_lookup (sc_syms (cur_scope st)) x = Some y -> y_val y = VFun h body ->
+    assoc_find (m_exports (get_mod st (cur_id st))) x = None ->
+    exec_stmt_with callee st (SCall x) = (r, st') ->
+    exists sa sb r0, v_cs sa = Some h /\ v_mods sa = v_mods st /\ v_trace sa = v_trace st /\
+                     callee sa body = (r0, sb) /\ r = match r0 with Ok => Ok | other => wrap_exc other end.
+Proof. exact method_call_frame. Qed.
+Print Assumptions C15_aliased_method_runs_in_home_module.
+
+(* 令x = f binds x, as a plain variable of the current module (not constant, no home module of its own), to the very
+   value the name f denotes; modules, current module and trace are untouched *)
+Theorem C15_alias_binds_same_value :
+  forall (callee : vm -> list stmt -> res * vm) st x f st',
+    exec_stmt_with callee st (SAlias x f) = (Ok, st') ->
+    exists v y, find_element st f = Some v /\
+                scope_lookup (sc_syms (cur_scope st')) x = Some y /\
+                y_val y = v /\ y_ext y = None /\ y_const y = false /\
+                v_mods st' = v_mods st /\ v_cs st' = v_cs st /\ v_trace st' = v_trace st.
+Proof. exact alias_binds. Qed.
+Print Assumptions C15_alias_binds_same_value.
+
+(* both together: 令x = f ; （x） where f denotes a method of module h runs that method's body in h *)
+Theorem C15_alias_then_call_runs_in_home_module :
+  forall (callee : vm -> list stmt -> res * vm) st x f h body st1 r st',
+    find_element st f = Some (VFun h body) ->
+    assoc_find (m_exports (get_mod st (cur_id st))) x = None ->
+    exec_stmt_with callee st (SAlias x f) = (Ok, st1) ->
+    exec_stmt_with callee st1 (SCall x) = (r, st') ->
+    exists sa sb r0, v_cs sa = Some h /\ v_mods sa = v_mods st /\ v_trace sa = v_trace st /\
+                     callee sa body = (r0, sb) /\ r = match r0 with Ok => Ok | other => wrap_exc other end.
+Proof. exact alias_call_frame. Qed.
+Print Assumptions C15_alias_then_call_runs_in_home_module.
 
 (* ------------------------------------------------------------------ non-vacuity: the model on concrete file sets *)
 Definition nm (l : list Z) : name := l.
@@ -209,6 +246,20 @@ Example C15_example_diamond_ok :
             ([D ++ dot_zn], mkSource [] [DFun fD [SMark 6; SCall fD2]; DFun fD2 [SMark 7]] [SMark 8]) ]
           libs0 fileA 20 = [[0]; [8; 4; 5; 1; 3; 6; 7; 2]].
 Proof. vm_compute. reflexivity. Qed.
+
+(* 乙 defines 助 (prints 9) and 求 (prints 3, calls 助); the main file imports only 求, keeps it in the variable 算 and
+   calls 算: the body runs in 乙, where 助 is found (marker 9).  助 itself is not visible in the main file (error 42). *)
+Definition fHelp := [21161]%Z.  (* 助 *)
+Definition fAsk := [27714]%Z.   (* 求 *)
+Definition vAlias := [31639]%Z. (* 算 *)
+Example C15_example_alias :
+  observe [ (fileA, mkSource [mkImport B [fAsk]] [] [SMark 1; SAlias vAlias fAsk; SCall vAlias; SMark 2]);
+            (fileB, mkSource [] [DFun fHelp [SMark 9]; DFun fAsk [SMark 3; SCall fHelp]] [SMark 4]) ]
+          libs0 fileA 20 = [[0]; [4; 1; 3; 9; 2]] /\
+  observe [ (fileA, mkSource [mkImport B [fAsk]] [] [SMark 1; SAlias vAlias fAsk; SCall fHelp; SMark 2]);
+            (fileB, mkSource [] [DFun fHelp [SMark 9]; DFun fAsk [SMark 3; SCall fHelp]] [SMark 4]) ]
+          libs0 fileA 20 = [[1; 42]; [4; 1]].
+Proof. vm_compute. split; reflexivity. Qed.
 
 Example C15_example_missing :
   observe [(fileA, mkSource [mkImport B []] [] [SMark 1])] libs0 fileA 20 = [[1; 60]; []].
